@@ -73,7 +73,7 @@ var Props = map[string]*PropCfg{
 	"C06": {
 		ID: "C06", Level: "fault_enumeration", Evolve: true,
 		Rule: "per sampled (program, value): EVERY cut point 0<=k<len of the reference encoding (all of them up to 4096 bytes; structural boundaries +-1 and 64 samples beyond) x {UnmarshalBebop on an exact-capacity guard-paged slice, DecodeBebop all-at-once + EOF, DecodeBebop under a drawn chunk schedule and reader kind + EOF/ErrUnexpectedEOF, MakeFromBytes every 7th}; oracle: non-nil error, no panic, allocation and step budgets relative to the full valid length; " +
-			"distinct_nontrivial counts distinct (record shape, element kind the cut landed on, decoder variant) triples",
+			"distinct_nontrivial counts distinct (record shape, element kind the cut landed on, decoder variant) triples Extensions: budgets are relative to the bytes GIVEN (the cut); a third of the values of evolved programs are read by the OLDER schema; one value in 16 carries payloads beyond 64 KiB and one in ~40 a GIANT array of 2^17 scalars (cuts then sampled, about 40 MB of input per value).",
 		RandProgs: map[string]int{"quick": 14, "thorough": 60},
 		Runs:      map[string]int{"quick": 1600, "thorough": 20000},
 		MasksPer:  map[string]int{"quick": 2, "thorough": 3},
@@ -82,7 +82,7 @@ var Props = map[string]*PropCfg{
 	"C07": {
 		ID: "C07", Level: "exploration",
 		Rule: "one evaluation = one corrupted or unstructured byte string given to UnmarshalBebop / DecodeBebop (drawn chunk schedule, reader kind) / MakeFromBytes; corruptions are structure-aware via the reference offset map (count/length/body-length inflation to 2^16..2^32-1 and +-1, index/discriminator/terminator rewrites, bit flips, noise ranges, span delete/duplicate/swap, foreign-record splice, truncate-and-pad) plus random and constant strings; oracle: returns (nil or error), no panic, allocation and step budgets relative to the bytes given; " +
-			"distinct_nontrivial counts distinct (record shape, mutation class, decoder) triples",
+			"distinct_nontrivial counts distinct (record shape, mutation class, decoder) triples Extensions: length prefixes set to exactly what is left of the input (+-2); scalars set to special bit patterns (NaNs, infinities, -0, all ones); unstructured bytes for the decoders of EVERY record type, also types no value of which can be built (union without members).",
 		RandProgs: map[string]int{"quick": 14, "thorough": 60},
 		Runs:      map[string]int{"quick": 6000, "thorough": 80000},
 		MasksPer:  map[string]int{"quick": 2, "thorough": 3},
@@ -91,7 +91,7 @@ var Props = map[string]*PropCfg{
 	"C08": {
 		ID: "C08", Level: "fault_enumeration", Evolve: true,
 		Rule: "per sampled (program, value): the fault-free run gives W Write calls and B bytes; then EVERY Write call k<W is failed (bare and partial/transient, error value from a menu of 5) plus 8 byte offsets, and EVERY read offset k<B (all up to 2048; boundaries +-1 and samples beyond) is failed bare, with partial data under a drawn chunk schedule, and transiently; oracle: an error returned to the code => non-nil result, no panic, budgets; nil from EncodeBebop => bytes == MarshalBebop; " +
-			"distinct_nontrivial counts distinct (record shape, fault kind, error value or element kind) triples among faults that actually fired",
+			"distinct_nontrivial counts distinct (record shape, fault kind, error value or element kind) triples among faults that actually fired Extensions: the read-fault menu includes a clean io.EOF before the last byte of the record; payloads beyond 64 KiB in one value of 16 (faulted calls then strided to about 40 MB of encoded bytes per value).",
 		RandProgs: map[string]int{"quick": 14, "thorough": 60},
 		Runs:      map[string]int{"quick": 1600, "thorough": 20000},
 		MasksPer:  map[string]int{"quick": 2, "thorough": 3},
@@ -100,7 +100,7 @@ var Props = map[string]*PropCfg{
 	"C09": {
 		ID: "C09", Level: "exploration", Evolve: true,
 		Rule: "one evaluation = one scenario with a sender built under option mask X and a receiver under mask Y != X of the same schema: bytes from X must equal bytes from Y (every encoder, same imposed map order) and Y must decode X's bytes to the value (every decoder incl. MustUnmarshalBebop where generated, stream paths under drawn schedules); " +
-			"distinct_nontrivial counts distinct (record shape, option difference X xor Y, decoder/encoder) triples",
+			"distinct_nontrivial counts distinct (record shape, option difference X xor Y, decoder/encoder) triples Extension: a third of the pairs read with an OLDER-schema build (peer still sends what the reader deprecates, adds fields it does not know), so the Must* decoders are compared on those valid encodings too.",
 		RandProgs: map[string]int{"quick": 10, "thorough": 40},
 		Runs:      map[string]int{"quick": 20000, "thorough": 200000},
 		MasksPer:  map[string]int{"quick": 4, "thorough": 32},
@@ -109,7 +109,7 @@ var Props = map[string]*PropCfg{
 	"C20": {
 		ID: "C20", Level: "fault_enumeration", NoProgs: true,
 		Rule: "no generated code: sequences of typed iohelp primitive writes through an ErrorWriter onto the simulated link and typed reads through an ErrorReader, plus the *Bytes variants on exact-width guard-paged slices. Fault-free part: all 2^16 values of uint16/int16 and all values of bool/byte/uint8 exhaustively, boundary+random values of the wider types, GUIDs, dates, strings; stream bytes == slice bytes == reference layout; stream and slice readers invert the writers under drawn chunk schedules and reader kinds; ReadStringBytes[SharedMemory] on every buffer length 0..4+len+1. Fault part: for a multi-primitive stream whose every wire byte is from a taint alphabet, EVERY byte offset is failed (EOF; error bare/partial under a chunk schedule; transient); oracle: ErrorReader.Err set by the read that needed the missing byte, and no value returned by that read or any later one contains a tainted byte it was not delivered (bool: not true; string: empty unless its prefix arrived); " +
-			"distinct_nontrivial counts distinct (primitive the fault landed in, fault kind, offset inside the primitive) triples plus distinct fault-free stream shapes",
+			"distinct_nontrivial counts distinct (primitive the fault landed in, fault kind, offset inside the primitive) triples plus distinct fault-free stream shapes Extension: short views (every primitive on a slice shorter than its width whose spare capacity holds a complete encoding: readers must panic or fail, writers must not touch the neighbour).",
 		Runs:     map[string]int{"quick": 4000, "thorough": 60000},
 		Assume:   []string{"reference layout from /verif/pkg/refcodec", "dates restricted to the range int64 nanoseconds represent"},
 		RealStub: map[string][]string{"real": {"iohelp runtime of the working tree (instrumented for allocation/step accounting only)"}, "stub": {"the byte stream: simnet link with chunk schedule and fault trace", "reference layout"}},
@@ -118,7 +118,7 @@ var Props = map[string]*PropCfg{
 		ID: "C10", Level: "fault_enumeration", TextOnly: true,
 		RepoInstr: map[string]instrument.Options{".": {MapOrder: true, Step: true, Globals: true}, "internal/importgraph": {MapOrder: true}, "iohelp": {MapOrder: true, Alloc: true, Step: true, Globals: true}},
 		Rule: "ReadFile reading through the simulated link. Inputs: every token string of length 1 and 2 over a 41-token vocabulary exhaustively (length 3 in the thorough tier), printed schemas in varied layouts (indent, CRLF, one-line, comments), the same torn at a random byte, with junk fragments inserted or appended (unterminated comments/strings, stray and non-UTF-8 bytes, partial tokens), token soup. Per input: one fault-free parse under a drawn chunk schedule with the completeness probe (accepted input + one fresh definition must fail or contain it), then a reader failure at EVERY byte offset (inputs <= 400 bytes; 64 sampled offsets beyond) bare, with partial data under a chunk schedule, and transiently, error values from a menu of 4 (wrapped io.EOF excluded). Oracles: no panic; step budget 2e5+200*len on the parser's loops; an error returned by the link => non-nil error from ReadFile; completeness; " +
-			"distinct_nontrivial counts distinct (input origin, outcome, schedule family) and (origin, fault kind, outcome) triples for faults that fired",
+			"distinct_nontrivial counts distinct (input origin, outcome, schedule family) and (origin, fault kind, outcome) triples for faults that fired Extensions: semantic soup (well-formed definitions with arbitrary meaning: [flags] expressions over every literal and operator, out-of-range values, opcodes of any form, deep and unknown types) and LARGE inputs padded with comments to 2^16..2^22 bytes +-1.",
 		RandProgs: map[string]int{"quick": 20, "thorough": 80},
 		Runs:      map[string]int{"quick": 3200, "thorough": 90000},
 		Params:    map[string]map[string]int{"thorough": {"tokens3": 1}},
@@ -133,7 +133,7 @@ var Props = map[string]*PropCfg{
 			"iohelp":               {MapOrder: true, Globals: true, Sync: true},
 		},
 		Rule: "one evaluation = one scenario of 2-4 concurrent calls drawn from {Generate under random options and import mode, Validate, Format, ReadFile} on ONE shared File (parsed, optionally with an import and with 1-8 slots of spare slice capacity), executed as real goroutines under a cooperative baton scheduler that can switch before every statement of the library (yield points inserted by source rewriting); schedule drawn from random-with-run-length or PCT strategies and recorded as an explicit switch list; map iteration order imposed per task. Oracles: every task's output bytes and error-ness == the same call alone under canonical map order; the same call repeated under another map order gives identical bytes; the shared File's visible content never changes; no spare-capacity slot or package-level variable is written by two tasks without ordering (logical write/write race); no panic; plus reader-chunking independence of ReadFile/Format; " +
-			"distinct_nontrivial counts distinct (task multiset, strategy, import?, spare?, switch-list hash) tuples, i.e. distinct interleavings",
+			"distinct_nontrivial counts distinct (task multiset, strategy, import?, spare?, switch-list hash) tuples, i.e. distinct interleavings Extensions: callers issue 1-3 calls in a row; one scenario in six appends definitions that parse but cannot be compiled and error TEXTS are compared; sync.Pool/Mutex/RWMutex/Once are modelled by the simulator; a third strategy hands the baton on within 1-8 yields after a synchronisation operation; fingerprints of package variables include the spare capacity of every slice reachable from them.",
 		RandProgs: map[string]int{"quick": 10, "thorough": 40},
 		Runs:      map[string]int{"quick": 640, "thorough": 12000},
 		Assume:    []string{"statement-level yields reach every interleaving that matters because the library has no atomics or locks of its own (R2 in DESIGN.md); sync/atomic calls introduced later are wrapped cooperatively", "read/write races on spare capacity are judged by their consequence (output differs from the solo run), not by fingerprints"},
@@ -149,7 +149,7 @@ var Props = map[string]*PropCfg{
 			"main/bebopfmt":        {OSShim: true},
 		},
 		Rule: "the real bebopc-go and bebopfmt main packages, built from the working tree with every os call routed through the simos shim, run as OS processes in a private workspace that holds the input schema(s) (valid / syntax error / validation error / with an import / with a missing import) and a PRE-EXISTING target (the -o file with known bytes; the schema file(s) being rewritten by bebopfmt -w, also as a directory and as several arguments). The fault-free run gives the operation list; then EVERY operation index x {error (errno menu), torn write with k bytes written, SIGKILL before, SIGKILL after} as applicable to the operation kind. Oracles: failed or crashed run => every pre-existing file byte-identical (crash: or identical to the complete fault-free result); exit status non-zero <=> something other than warnings was printed; exit 0 => output == fault-free output (bebopc-go) / every rewritten file re-parses with the real ReadFile to the same schema modulo comments (bebopfmt); " +
-			"distinct_nontrivial counts distinct (tool, input class, operation kind x fault kind, exit status) tuples",
+			"distinct_nontrivial counts distinct (tool, input class, operation kind x fault kind, exit status) tuples Extensions: input classes valid / syntax error / validation error / import / missing import / import paths differing in leading dots and slashes; files with comments, CRLF, trailing remarks, multi-line string constants, no final newline; a tool still running after 20 s is reported as hang.",
 		RandProgs: map[string]int{"quick": 10, "thorough": 40},
 		Runs:      map[string]int{"quick": 320, "thorough": 6000},
 		Assume:    []string{"process-crash model: what reached the file system before SIGKILL stays, buffered data in the process is lost; no power-loss model (the tools never fsync, so any outcome would be legal)", "os APIs that simos does not implement are left as real os calls and escape injection (none today; listed in evidence as instrumentation.os_left)"},
